@@ -47,6 +47,10 @@ def astdeps_args():
     core = [f for f in os.listdir(ASTDEPS) if re.match(r'librustpython_parser_core-[0-9a-f]+\.rlib$', f)]
     if core:
         out += ['--extern', f'rustpython_parser_core={os.path.join(ASTDEPS, core[0])}']
+    # the real LSP data types (ls-types, re-exported by tower-lsp-server as ls_types) for the handler units
+    ls = [f for f in os.listdir(ASTDEPS) if re.match(r'libls_types-[0-9a-f]+\.rlib$', f)]
+    if ls:
+        out += ['--extern', f'ls_types={os.path.join(ASTDEPS, ls[0])}']
     return out
 
 
